@@ -9,6 +9,7 @@ import UtilModel.Routine.ProofsObs4
 import UtilModel.Routine.ProofsObs5
 import UtilModel.Routine.ProofsObs6
 import UtilModel.Routine.ProofsObs7
+import UtilModel.Routine.ProofsObs8
 import UtilModel.Routine.ProofsAsm
 import UtilModel.Routine.ProofsRT
 import UtilModel.Routine.Monitors
@@ -533,6 +534,28 @@ theorem C14ha_obs (es : List Ev) (s : St) (hr : model.run model.init es = some s
   obtain ⟨ms, h, _⟩ := hl_run model.init s es good_init {} hlink_init {} linkA_init hr
   have : monC14ha.run monC14ha.init (es.filterMap model.obs) = some ms := h
   simp [ObsMonitor.accepts, this]
+
+/-- **C14, "moved to a new context", observable form** (`C14hb_obs`): the first two clauses of monitor C14h accept
+the trace of every run of the model. Second clause: when SetContext(ctx ≠ nil, restart = false) — overlapped by no
+other mutating call and by no cancellation of a context by the environment — returns true while the healthy
+instance that was executing at its invocation still executes, the routine runs again under the new context once
+that instance has returned: no quiescence line with nothing executing can follow before an instance enters,
+another mutating call is invoked or the environment cancels a context. Rests on `setContextCS_spawn` (such a
+critical section starts a successor that waits for the executing instance), `step_stable` (nothing but the critical
+section of a mutating call touches a live waiter or the current instance) and the hand-over chain. -/
+theorem C14hb_obs (es : List Ev) (s : St) (hr : model.run model.init es = some s) :
+    monC14hb.accepts (es.filterMap model.obs) = true := by
+  obtain ⟨ms, h, _⟩ := xl_run model.init s es good_init cur_init {} xlink_init {} linkA_init hr
+  have : monC14hb.run monC14hb.init (es.filterMap model.obs) = some ms := h
+  simp [ObsMonitor.accepts, this]
+
+/-- **C14h, observable form** (`C14h_obs`): monitor C14h — exactly as the driver evaluates it — accepts the trace of
+every run of the model: the healthy-instance and "moved to a new context" clauses (`C14hb_obs`) and the
+replaced-record clause, which is the function part of C05's lineage clause (`monC14hf_of_C05l` applied to
+`C05l_obs`); `monC14h_of_clauses`: the monitor is the conjunction of these clause monitors. -/
+theorem C14h_obs (es : List Ev) (s : St) (hr : model.run model.init es = some s) :
+    monC14h.accepts (es.filterMap model.obs) = true :=
+  monC14h_of_clauses _ (C14hb_obs es s hr) (monC14hf_of_C05l _ (C05l_obs es s hr))
 
 /-- state form of the same fact: the critical section of a retry timer never cancels an instance that has not
 exited (it restarts the routine only when the record has exited, and the instance it cancels is that one) -/
